@@ -303,8 +303,9 @@ func (p *textProgressBar) showProgress() {
 	p.lastUpdateTime = &now
 
 	percentage := "100%"
-	if p.fileSize != 0 {
-		percentage = fmt.Sprintf("%.0f%%", math.Round(float64(p.fileStep)*100.0/float64(p.fileSize)))
+	if p.fileSize > 0 {
+		percent := math.Round(float64(p.fileStep) * 100.0 / float64(p.fileSize))
+		percentage = fmt.Sprintf("%.0f%%", math.Max(0, math.Min(100, percent)))
 	}
 	total := convertSizeToString(float64(p.fileStep))
 	speed := p.recentSpeed.getSpeed(p.fileStep, &now)
@@ -312,7 +313,8 @@ func (p *textProgressBar) showProgress() {
 	etaStr := "--- ETA"
 	if speed > 0 {
 		speedStr = fmt.Sprintf("%s/s", convertSizeToString(speed))
-		etaStr = fmt.Sprintf("%s ETA", convertTimeToString(math.Round(float64(p.fileSize-p.fileStep)/speed)))
+		remaining := math.Max(0, float64(p.fileSize)-float64(p.fileStep))
+		etaStr = fmt.Sprintf("%s ETA", convertTimeToString(math.Round(remaining/speed)))
 	}
 	progressText := p.getProgressText(percentage, total, speedStr, etaStr)
 
@@ -406,8 +408,9 @@ func (p *textProgressBar) getProgressBar(length int) string {
 	}
 	totalSize := length - 2
 	fullSize := totalSize
-	if p.fileSize != 0 {
-		fullSize = int(math.Round((float64(totalSize) * float64(p.fileStep)) / float64(p.fileSize)))
+	if p.fileSize > 0 {
+		full := math.Round((float64(totalSize) * float64(p.fileStep)) / float64(p.fileSize))
+		fullSize = int(math.Max(0, math.Min(float64(totalSize), full)))
 	}
 	emptySize := totalSize - fullSize
 	if p.colorA == nil || p.colorB == nil {
